@@ -135,6 +135,11 @@ func (p *Program) RepoCG() *RepoCG {
 		g.Out[e.Caller] = append(g.Out[e.Caller], e)
 		g.In[e.Callee] = append(g.In[e.Callee], e)
 	}
+	type dynSite struct {
+		caller *ssa.Function
+		site   ssa.CallInstruction
+	}
+	var dynSites []dynSite
 	for _, f := range g.Funcs {
 		caller := f
 		Instrs(f, func(in ssa.Instruction) {
@@ -173,19 +178,23 @@ func (p *Program) RepoCG() *RepoCG {
 						resolvedRepo = true
 					}
 				} else if _, isB := cc.Value.(*ssa.Builtin); !isB {
-					sig, _ := cc.Value.Type().Underlying().(*types.Signature)
-					for fn := range taken {
-						if sig != nil && types.Identical(fn.Signature, sig) {
-							add(CGEdge{caller, in, fn, "dynamic"})
-							resolvedRepo = true
+					if mc, ok := cc.Value.(*ssa.MakeClosure); ok {
+						if fn, ok := mc.Fn.(*ssa.Function); ok && isRepo[fn] {
+							add(CGEdge{caller, in, fn, "static"})
 						}
+					} else {
+						dynSites = append(dynSites, dynSite{caller, c})
 					}
+					resolvedRepo = true // closure args of a dynamic call are handled with the site
 				}
 			}
 			if !resolvedRepo {
 				// closures / repo functions handed to foreign code are called there
 				for _, a := range cc.Args {
 					var fn *ssa.Function
+					if ct, ok := a.(*ssa.ChangeType); ok {
+						a = ct.X
+					}
 					switch v := a.(type) {
 					case *ssa.MakeClosure:
 						fn, _ = v.Fn.(*ssa.Function)
@@ -198,6 +207,129 @@ func (p *Program) RepoCG() *RepoCG {
 				}
 			}
 		})
+	}
+	// Function values flowing through parameters: PV[f][i] = functions that may
+	// be bound to parameter i of f (one call-string level per forwarding step,
+	// iterated to a fixpoint). A call of a parameter resolves to PV; any other
+	// function-valued callee falls back to every address-taken repo function of
+	// identical signature.
+	pv := map[*ssa.Function]map[int]map[*ssa.Function]bool{}
+	addPV := func(f *ssa.Function, i int, fn *ssa.Function) bool {
+		if pv[f] == nil {
+			pv[f] = map[int]map[*ssa.Function]bool{}
+		}
+		if pv[f][i] == nil {
+			pv[f][i] = map[*ssa.Function]bool{}
+		}
+		if pv[f][i][fn] {
+			return false
+		}
+		pv[f][i][fn] = true
+		return true
+	}
+	unknownPV := map[*ssa.Function]map[int]bool{} // parameter may receive a value we cannot enumerate
+	paramIndex := func(f *ssa.Function, v ssa.Value) int {
+		for i, q := range f.Params {
+			if ssa.Value(q) == v {
+				return i
+			}
+		}
+		return -1
+	}
+	for changed := true; changed; {
+		changed = false
+		for _, f := range g.Funcs {
+			for _, e := range g.Out[f] {
+				c, ok := e.Site.(ssa.CallInstruction)
+				if !ok || e.Kind == "closure-arg" || e.Kind == "dynamic" {
+					continue
+				}
+				cc := c.Common()
+				off := 0
+				if cc.IsInvoke() {
+					off = 1 // callee.Params[0] is the receiver, not in Args
+				}
+				for j, a := range cc.Args {
+					if _, isSig := a.Type().Underlying().(*types.Signature); !isSig {
+						continue
+					}
+					idx := j + off
+					if idx >= len(e.Callee.Params) {
+						continue
+					}
+					for {
+						if ct, ok := a.(*ssa.ChangeType); ok {
+							a = ct.X
+							continue
+						}
+						break
+					}
+					switch v := a.(type) {
+					case *ssa.MakeClosure:
+						if fn, ok := v.Fn.(*ssa.Function); ok && addPV(e.Callee, idx, fn) {
+							changed = true
+						}
+					case *ssa.Function:
+						if addPV(e.Callee, idx, v) {
+							changed = true
+						}
+					case *ssa.Parameter:
+						if qi := paramIndex(f, v); qi >= 0 {
+							for fn := range pv[f][qi] {
+								if addPV(e.Callee, idx, fn) {
+									changed = true
+								}
+							}
+							if unknownPV[f][qi] {
+								if unknownPV[e.Callee] == nil {
+									unknownPV[e.Callee] = map[int]bool{}
+								}
+								if !unknownPV[e.Callee][idx] {
+									unknownPV[e.Callee][idx] = true
+									changed = true
+								}
+							}
+						}
+					default:
+						if unknownPV[e.Callee] == nil {
+							unknownPV[e.Callee] = map[int]bool{}
+						}
+						if !unknownPV[e.Callee][idx] {
+							unknownPV[e.Callee][idx] = true
+							changed = true
+						}
+					}
+				}
+			}
+		}
+	}
+	hasRepoCaller := map[*ssa.Function]bool{}
+	for f, in := range g.In {
+		if len(in) > 0 {
+			hasRepoCaller[f] = true
+		}
+	}
+	for _, ds := range dynSites {
+		cc := ds.site.Common()
+		sig, _ := cc.Value.Type().Underlying().(*types.Signature)
+		resolved := false
+		if prm, ok := cc.Value.(*ssa.Parameter); ok {
+			qi := paramIndex(ds.caller, prm)
+			exported := ds.caller.Object() != nil && ds.caller.Object().Exported() && ds.caller.Parent() == nil
+			if qi >= 0 && !unknownPV[ds.caller][qi] && len(pv[ds.caller][qi]) > 0 && !(exported && false) {
+				for fn := range pv[ds.caller][qi] {
+					add(CGEdge{ds.caller, ds.site, fn, "dynamic"})
+				}
+				resolved = true
+			}
+		}
+		if !resolved {
+			for fn := range taken {
+				if sig != nil && types.Identical(fn.Signature, sig) {
+					add(CGEdge{ds.caller, ds.site, fn, "dynamic"})
+				}
+			}
+		}
 	}
 	p.rcg = g
 	return g
